@@ -21,15 +21,18 @@ MODELLED = ["MarkovChainSDE.simulate_one_path / CouplingSDE.simulate_one_path_wi
             "coefficient and sde drift: arbitrary functions of (t, x) in the theorems; in the correspondence Constant, DiagX and the "
             "harness-defined time-dependent a(t,x) = (1+t) base(t,x), b(t,x) = beta t x (exact); the real Libor / forward-market sigma(t) x "
             "coefficient and quadrature drift are checked by an implementation-only left-point Euler oracle (tolerance 1e-12), not modelled in Coq",
-            "epsilon = h ** Blumenthal-Getoor index is passed to the driver as data (C15 covers the time-step cap)"]
+            "epsilon = h ** Blumenthal-Getoor index: the value stored in the SDE process and in the driver's max-step simulators is "
+            "checked by the oracle at every level (C15 covers what the cap then does)"]
 ASSUMPTIONS = ["floats are modelled by exact rationals: exact comparison on dyadic inputs whose Euler recursion stays within 53 bits "
                "(checked by recomputation in Fractions), absolute tolerance 1e-9 otherwise; df: tolerance 2^-45",
                "df theorems: tenors strictly increasing, first tenor >= 0, rates >= 0, 0 <= t <= last tenor",
                "the driver path consumed by the scheme is the one returned by the driver's simulate_one_path(_with_coupling)"]
 THEOREM_NOTES = {
     "C16_euler_step": "for every a, b, mu, x0 and any number of steps; a and b are evaluated at the scheme's own state Z_i, which is proved equal to x0 + the returned paths",
-    "C16_constant_a": "Y_T as sums of the increments; the telescoping lemma turns each sum into end value minus start value",
-    "C16_coupled": "rows of the stacked recursion = single recursions; drift bookkeeping over next_level as a fold",
+    "C16_constant_a": "Y_T as sums of the increments, and for steps_of (times, J, W) these sums are proved equal to the driver's end minus start values",
+    "C16_coupled": "ceuler_st models the ONE call a(t, zi) on the stacked (2,m,1) state with an explicit Shared/Stacked result (matmul "
+                   "broadcasting); numpy shape errors (the former F-C16-2) cannot be expressed in the list model and are covered by the "
+                   "correspondence on real objects; drift bookkeeping over next_level as a fold, checked on the object at 4 successive levels",
     "C16_df_continuous": "Lipschitz bounds on [0,T_0] and on each closed period [T_j,T_{j+1}] (hence left limit = value = right limit at every tenor)",
     "C16_df_*": "about the repaired tree (fix commit 'rate-model discount factor compounds ...'); on the unrepaired tree the oracle reports F-C16-1",
 }
@@ -194,21 +197,28 @@ def all_doubles(vals, bits=50):
     return True
 
 
-def closed_form_violations(res, kind, A, mu, x0, X, dYs, ctx):
+def closed_form_violations(res, kind, A, mu, x0, times, jrows, drows, got_rows, ctx):
+    """the IMPLEMENTATION's end value x0 + drift_T + diffusion_T + jump_T against the closed form computed from the driver path
+    alone: x0 + a Y_T with Y_T = mu (t_n - t_0) + (L_n - L_0) + (W_n - W_0) (Constant), x0 prod_i (1 + dY_i) (DiagX)"""
     m, d = len(x0), len(mu)
-    xT = X[-1]
+    gD, gW, gJ = got_rows
+    got = [F(x0[k]) + F(gD[k][-1]) + F(gW[k][-1]) + F(gJ[k][-1]) for k in range(m)]
+    muq = [F(v) for v in mu]
     if kind == "const":
-        YT = [sum(dy_[j] for dy_ in dYs) for j in range(d)]
+        T = F(times[-1]) - F(times[0])
+        YT = [muq[j] * T + (F(jrows[j][-1]) - F(jrows[j][0])) + (F(drows[j][-1]) - F(drows[j][0])) for j in range(d)]
         want = [F(x0[k]) + sum(F(A) * YT[j] for j in range(d)) for k in range(m)]
     else:
         want = []
         for k in range(m):
             p = F(x0[k])
-            for dy_ in dYs:
-                p *= 1 + dy_[k]
+            for i in range(len(times) - 1):
+                dt = F(times[i + 1]) - F(times[i])
+                p *= 1 + muq[k] * dt + (F(jrows[k][i + 1]) - F(jrows[k][i])) + (F(drows[k][i + 1]) - F(drows[k][i]))
             want.append(p)
-    if want != xT:
-        res.violation("Euler recursion does not reproduce the closed form (x0 + a Y_T, resp. x0 prod(1+dY))", dict(ctx, closed_form=want, recursion=xT))
+    if any(abs(g - w) > TOL_INEXACT * max(1, abs(w)) for g, w in zip(got, want)):
+        res.violation("the simulated end value is not the closed form (x0 + a Y_T, resp. x0 prod(1+dY)) of the consumed driver path",
+                      dict(ctx, closed_form=want, simulated=got))
 
 
 def mat_lit(rows):
@@ -249,6 +259,8 @@ def single_cases(res, rng, tier):
         driver, mkgrid = step_driver(rng, d)
         c = dy(rng, -2, 2, 4) or 1.0
         x0 = [dy(rng, 0.5, 3, 4) for _ in range(m)]
+        if ip % 3 == 1:
+            x0 = [rng.randrange(1, 4) for _ in range(m)]      # INTEGER initial value (Python int / integer array)
         tdep = ip % 4 >= 2                       # time-dependent coefficient (1+t)*a and drift beta*t*x
         beta = dy(rng, -1, 1, 4) if tdep else 0.0
         ctx0 = {"kind": "single", "a": kind, "m": m, "d": d, "c": c, "x0": x0, "time_dependent": tdep, "beta": beta}
@@ -257,6 +269,11 @@ def single_cases(res, rng, tier):
             proc = MarkovChainSDE(model, sampling_method(d), mkgrid())
             proc.initialisation(the_product())
             mu = [float(v) for v in np.atleast_1d(np.asarray(proc.markov_chain.process_drift(), dtype=float)).flatten()]
+            eps_want = float(proc.markov_chain.grid.h) ** float(driver.blumenthal_getoor_index())
+            eps_drv = getattr(proc.markov_chain._path_simulation, "epsilon", None)
+            if proc.epsilon != eps_want or eps_drv != eps_want:
+                res.violation("MarkovChainSDE: the maximum time step handed to the driver is not h ** (Blumenthal-Getoor index)",
+                              dict(ctx0, h=float(proc.markov_chain.grid.h), epsilon=proc.epsilon, driver_epsilon=eps_drv, expected=eps_want))
         except Exception as e:  # noqa
             res.violation(f"MarkovChainSDE cannot be built/initialised: {type(e).__name__}", dict(ctx0, error=str(e)))
             continue
@@ -282,9 +299,12 @@ def single_cases(res, rng, tier):
                 sp = proc.simulate_one_path()
             except Exception as e:  # noqa
                 rp = dict(ctx, error=f"{type(e).__name__}: {e}")
-                if kind == "diag":
+                integer_x0 = all(isinstance(v, int) for v in x0)
+                if "UFuncTypeError" in rp["error"] and integer_x0:
+                    rp["finding"] = "F-C16-3"
+                elif kind == "diag":
                     rp["finding"] = "F-C16-2"
-                res.violation("MarkovChainSDE.simulate_one_path raises" + (" with a(x) = diag(x)" if kind == "diag" else ""), rp)
+                res.violation("MarkovChainSDE.simulate_one_path raises" + (" for an integer x0" if rp.get("finding") == "F-C16-3" else (" with a(x) = diag(x)" if kind == "diag" else "")), rp)
                 break
             if recorded:
                 p = box["p"]
@@ -310,8 +330,8 @@ def single_cases(res, rng, tier):
                 ok = False
             if list(map(float, sp.jump_times)) != times:
                 res.violation("MarkovChainSDE does not return the driver's own time grid", dict(ctx, got_times=list(map(float, sp.jump_times))))
-            if ok and not tdep:
-                closed_form_violations(res, kind, c, mu, x0, X, dYs, ctx)
+            if not tdep:
+                closed_form_violations(res, kind, c, mu, x0, times, jrows, drows, (gD, gW, gJ), ctx)
             A = "None" if kind == "diag" else f"(Some {mat_lit([[c] * d for _ in range(m)])})"
             cases.append(f"({'true' if tdep else 'false'}, {qlit(beta)}, {A}, {lst([qlit(v) for v in mu])}, {lst([qlit(v) for v in x0])}, {lst([qlit(t) for t in times])}, "
                          f"{mat_lit(jrows)}, {mat_lit(drows)}, {qlit(tol)}, ({mat_lit(gD)}, {mat_lit(gW)}, {mat_lit(gJ)}))")
@@ -334,6 +354,8 @@ def coupled_cases(res, rng, tier):
         driver, mkgrid = step_driver(rng, d, infinite_variation=infvar)
         c = dy(rng, -2, 2, 4) or 1.0
         x0 = [dy(rng, 0.5, 3, 4) for _ in range(m)]
+        if ip % 3 == 1:
+            x0 = [rng.randrange(1, 4) for _ in range(m)]      # INTEGER initial value (Python int / integer array)
         tdep = ip % 4 >= 2
         beta = dy(rng, -1, 1, 4) if tdep else 0.0
         ctx0 = {"kind": "coupled", "infinite_variation_flag": infvar, "a": kind, "m": m, "d": d, "c": c, "x0": x0, "time_dependent": tdep, "beta": beta}
@@ -367,6 +389,13 @@ def coupled_cases(res, rng, tier):
                               dict(ctx0, level=level, mc_drift_h=mu_h, mc_drift_2h=mu_2h, previous_level_mc_drift_h=drift_history[-1],
                                    previous_level_fine_chain_drift=prev_fine_drift, fine_driver_drift=fine_drift, drift_history=drift_history))
             drift_history.append(mu_h)
+            eps_want = float(dcp.grid.h) ** float(driver.blumenthal_getoor_index())
+            eps_drv = getattr(dcp._path_coupling_simulation, "epsilon", None)
+            eps_fine = getattr(dcp.fine_process._path_simulation, "epsilon", None)
+            res.bump("epsilon_vs_1", "eps < 1" if eps_want < 1 else "eps = 1 (index 0)")
+            if cp.epsilon != eps_want or eps_drv != eps_want or eps_fine != eps_want:
+                res.violation("CouplingSDE.next_level: the maximum time step handed to the coupled driver is not (refined h) ** (Blumenthal-Getoor index)",
+                              dict(ctx0, level=level, h=float(dcp.grid.h), epsilon=cp.epsilon, coupling_epsilon=eps_drv, fine_epsilon=eps_fine, expected=eps_want))
             # the model and the oracle below are fed the coarse drift the HARNESS observed on the previous level (not the
             # object's own mc_drift_2h): the scheme must USE the previous level's fine drift for the coarse component
             mu_2h = drift_history[-2]
@@ -390,9 +419,12 @@ def coupled_cases(res, rng, tier):
                     sp = cp.simulate_one_path_with_coupling()
                 except Exception as e:  # noqa
                     rp = dict(ctx, error=f"{type(e).__name__}: {e}")
-                    if kind == "diag":
+                    integer_x0 = all(isinstance(v, int) for v in x0)
+                    if "UFuncTypeError" in rp["error"] and integer_x0:
+                        rp["finding"] = "F-C16-3"
+                    elif kind == "diag":
                         rp["finding"] = "F-C16-2"
-                    res.violation("CouplingSDE.simulate_one_path_with_coupling raises" + (" with a(x) = diag(x)" if kind == "diag" else ""), rp)
+                    res.violation("CouplingSDE.simulate_one_path_with_coupling raises" + (" for an integer x0" if rp.get("finding") == "F-C16-3" else (" with a(x) = diag(x)" if kind == "diag" else "")), rp)
                     break
                 got = {}
                 for name, arr in (("D", sp.drift), ("W", sp.diffusion_path), ("J", sp.jump_path)):
@@ -407,8 +439,9 @@ def coupled_cases(res, rng, tier):
                     who = "CouplingSDE " + ("fine" if comp == 0 else "coarse")
                     ok &= (compare_paths(res, who, got["D"][comp], D, tol, ctx) and compare_paths(res, who, got["W"][comp], W, tol, ctx)
                            and compare_paths(res, who, got["J"][comp], J, tol, ctx))
-                    if ok and not tdep:
-                        closed_form_violations(res, kind, c, mu, x0, X, dYs, dict(ctx, component="fine" if comp == 0 else "coarse"))
+                    if not tdep:
+                        closed_form_violations(res, kind, c, mu, x0, times, jr, dr, (got["D"][comp], got["W"][comp], got["J"][comp]),
+                                               dict(ctx, component="fine" if comp == 0 else "coarse"))
                 tol = Fraction(0) if exact_all else TOL_INEXACT
                 res.count(("coupled", kind, tdep, beta, m, d, level, tuple(times), repr(jf), repr(jc), repr(df_), repr(dc), tuple(x0)),
                           nontrivial=len(times) > 2, kind=f"coupled {kind}{' time-dependent' if tdep else ''} d={d} level={level}")
@@ -464,7 +497,8 @@ def rate_model_oracle(res, rng, tier):
                 pms = [MLMCPath(cp.fine_process.deterministic_path, False)]
                 single = cp.fine_process
             except Exception as e:  # noqa
-                res.notes.append(f"rate-model oracle: {cls.__name__} could not be built ({type(e).__name__}: {e})")
+                res.broke("rate-model oracle", f"{cls.__name__} with a product maturing at the first tenor could not be built/initialised: "
+                                               f"{type(e).__name__}: {e} ({ctx0})")
                 continue
             for level in (0, 1, 2):
                 if level:
@@ -552,6 +586,13 @@ Definition afun0 (k : option (list (list Q))) := match k with Some A => a_consta
 Definition afun (tdep : bool) (k : option (list (list Q))) : Q -> list Q -> list (list Q) :=
   fun t x => if tdep then map (vscale (1 + t)) (afun0 k t x) else afun0 k t x.
 Definition bfun (beta : Q) : Q -> list Q -> list Q := fun t x => vscale (beta * t) x.
+(* the same on the stacked state: ONE call a(t, zi); Constant gives a matrix shared by both components, DiagX a stack *)
+Definition afun_st (tdep : bool) (k : option (list (list Q))) : Q -> list Q -> list Q -> smat :=
+  fun t zf zc =>
+    let S := match k with Some A => a_st_constant A t zf zc | None => a_st_diag t zf zc end in
+    if tdep then match S with Shared A => Shared (map (vscale (1 + t)) A)
+                            | Stacked Af Ac => Stacked (map (vscale (1 + t)) Af) (map (vscale (1 + t)) Ac) end
+    else S.
 Definition rows_of (m : nat) (path : list (list Q)) : list (list Q) := map (fun k => map (fun v => nth k v 0) path) (seq 0 m).
 Definition mats_eqb (tol : Q) (m : nat) (p : list (list Q) * list (list Q) * list (list Q)) (e : list (list Q) * list (list Q) * list (list Q)) : bool :=
   match p, e with (D, W, J), (eD, eW, eJ) =>
@@ -564,7 +605,7 @@ Definition coupled_check (c : bool * Q * option (list (list Q)) * list Q * list 
                               * list (list Q) * Q * (list (list Q) * list (list Q) * list (list Q) * list (list Q) * list (list Q) * list (list Q))) : bool :=
   match c with (tdep, beta, ak, mu_h, mu_2h, x0, times, jf, df, jc, dc, tol, (fD, fW, fJ, cD, cW, cJ)) =>
     let cs := zip_csteps (steps_of times jf df) (steps_of times jc dc) in
-    let tms := ceuler (afun tdep ak) (bfun beta) mu_h mu_2h cs x0 x0 in
+    let tms := ceuler_st (afun_st tdep ak) (bfun beta) mu_h mu_2h cs x0 x0 in
     let m := length x0 in
     let f := map fst tms in let co := map snd tms in
     mats_eqb tol m (path_of m (map fst3 f), path_of m (map snd3 f), path_of m (map thd3 f)) (fD, fW, fJ)
